@@ -178,7 +178,7 @@ def roaC : File := ⟨53, .roa (ee 12) [64498]⟩
 def ca : CaCtx := CaCtx.root ⟨0, 9, 8⟩
 /-- stored version 1: CRL + ROA AS64496 -/
 def mft1 : MftFile := ⟨1, some ⟨ee 1, some 0, 1, 10, 1000, [⟨0, .crl, 50, true⟩, ⟨1, .roa, 51, true⟩]⟩⟩
-def stored1 : Stored := ⟨mft1, 1, 10, 9, crlFile.content, [⟨0, .crl, crlFile⟩, ⟨1, .roa, roaA⟩]⟩
+def stored1 : Stored := ⟨mft1, 1, 10, 1000, 9, crlFile.content, [⟨0, .crl, crlFile⟩, ⟨1, .roa, roaA⟩]⟩
 /-- fetched version 2: CRL + ROA AS64497 + ROA AS64498 -/
 def m2 : Mft :=
   ⟨ee 2, some 0, 2, 20, 1000, [⟨0, .crl, 50, true⟩, ⟨2, .roa, 52, true⟩, ⟨3, .roa, 53, true⟩]⟩
